@@ -1154,6 +1154,73 @@ fn replay_ffiseq_cmd(a: &HashMap<String, String>) -> i32 {
     if bad > 0 { 1 } else { 0 }
 }
 
+/// WfFfiCatch histories: executed by child processes (`--child-from K` prints one line per vector, starting at
+/// vector K); a child that dies is the observation for the vector it was working on.
+fn replay_fficatch_cmd(a: &HashMap<String, String>) -> i32 {
+    let path = a.get("in").expect("--in");
+    let out = a.get("out").cloned().unwrap_or_else(|| "/dev/null".into());
+    quiet_panics();
+    let lines: Vec<String> = BufReader::new(File::open(path).unwrap()).lines().map(|l| l.unwrap()).filter(|l| !l.trim().is_empty()).collect();
+    if let Some(from) = a.get("child-from").and_then(|s| s.parse::<usize>().ok()) {
+        wirefilter_ffi::panic::wirefilter_set_panic_catcher_hook();
+        let mut so = std::io::stdout().lock();
+        for (k, line) in lines.iter().enumerate().skip(from) {
+            let v: Value = serde_json::from_str(line).expect("vector json");
+            writeln!(so, "{}", serde_json::to_string(&json!({"k": k, "start": true})).unwrap()).unwrap();
+            so.flush().unwrap();
+            let (obs, diffs) = std::panic::catch_unwind(std::panic::AssertUnwindSafe(|| ffi::replay_fficatch(&v)))
+                .unwrap_or_else(|_| (json!(null), vec!["the harness panicked while replaying the history".to_string()]));
+            writeln!(so, "{}", serde_json::to_string(&json!({"k": k, "observed": obs, "diffs": diffs})).unwrap()).unwrap();
+            so.flush().unwrap();
+        }
+        return 0;
+    }
+    let mut ow = BufWriter::new(File::create(&out).unwrap());
+    let (mut bad, mut steps) = (0u64, 0u64);
+    let exe = std::env::current_exe().unwrap();
+    let mut from = 0usize;
+    let mut done = vec![false; lines.len()];
+    while from < lines.len() {
+        let o = std::process::Command::new(&exe).args(["replay-fficatch", "--in", path, "--child-from", &from.to_string()]).output().unwrap();
+        let mut started: Option<usize> = None;
+        for l in String::from_utf8_lossy(&o.stdout).lines() {
+            let Ok(r) = serde_json::from_str::<Value>(l) else { continue };
+            let k = r["k"].as_u64().unwrap_or(0) as usize;
+            if r.get("start").is_some() { started = Some(k); continue; }
+            started = None;
+            done[k] = true;
+            let v: Value = serde_json::from_str(&lines[k]).unwrap();
+            steps += v["hist"].as_array().map(|h| h.len() as u64).unwrap_or(0);
+            if r["diffs"].as_array().map(|d| !d.is_empty()).unwrap_or(true) {
+                bad += 1;
+                serde_json::to_writer(&mut ow, &json!({"vector": v, "src": "C API history with panicking functions", "observed": r["observed"], "diffs": r["diffs"]})).unwrap();
+                ow.write_all(b"\n").unwrap();
+            }
+        }
+        match started {
+            Some(k) => {
+                // the child died while executing vector k
+                done[k] = true;
+                bad += 1;
+                let v: Value = serde_json::from_str(&lines[k]).unwrap();
+                serde_json::to_writer(&mut ow, &json!({"vector": v, "src": "C API history with panicking functions", "observed": "process died",
+                    "diffs": [format!("the process died while executing this history ({:?}): a panic was not reported as a status", o.status)]})).unwrap();
+                ow.write_all(b"\n").unwrap();
+                from = k + 1;
+            }
+            None => {
+                match done.iter().position(|d| !d) {
+                    Some(k) if !o.status.success() => { from = k.max(from + 1); }
+                    _ => break,
+                }
+            }
+        }
+    }
+    ow.flush().unwrap();
+    println!("{}", serde_json::to_string(&json!({"vectors": lines.len(), "mismatches": bad, "runs": steps})).unwrap());
+    if bad > 0 { 1 } else { 0 }
+}
+
 fn replay_serde_cmd(a: &HashMap<String, String>) -> i32 {
     let path = a.get("in").expect("--in");
     let out = a.get("out").cloned().unwrap_or_else(|| "/dev/null".into());
@@ -1410,6 +1477,7 @@ fn main() {
         "replay-serde" => replay_serde_cmd(&a),
         "replay-lit" => replay_lit_cmd(&a),
         "replay-ffiseq" => replay_ffiseq_cmd(&a),
+        "replay-fficatch" => replay_fficatch_cmd(&a),
         "replay-contains" => replay_contains_cmd(&a),
         "gen-contains" => {
             let seed: u64 = a.get("seed").and_then(|s| s.parse().ok()).unwrap_or(1);
